@@ -1445,7 +1445,7 @@ def finding_bleedbox_cap():
 class C19(PropCheck):
     id = 'C19'
     extractors = (pdf_variants.generate, module_state.generate)
-    modules = ('WpModel.Props.C19', 'WpModel.Witness.C19')
+    modules = ('WpModel.Props.C19', 'WpModel.Witness.C19', 'WpModel.Props.C19Pm2')
     trusted_base = (
         'modelled, not verified: generate_pdf / add_links / make_bookmark_tree coordinates, Document.copy, '
         'resolve_links, get_image_from_uri + RasterImage cache writes, write_pdf sinks, the allocation skeleton of '
